@@ -164,7 +164,6 @@ class _Buf:
         self.calls.append(('unk', a, k))
 
     def rank(self):
-        # a template that does not fit (no verdict) says less than one that fits and differs
         return 0 if any(c[0] == 'bad' for c in self.calls) else 1
 
     def replay(self, rep):
@@ -206,7 +205,8 @@ def steps(ctx):
                         res.append((okf, buf))
                         if okf:
                             break
-                    okf, buf = res[-1] if res[-1][0] else sorted(res, key=lambda r: r[1].rank())[0]
+                    # accepted when one orientation matches; refuted only when both orientations are compared and differ
+                    okf, buf = res[-1] if res[-1][0] else sorted(res, key=lambda r: -r[1].rank())[0]
                     buf.replay(rep)
                     if okf:
                         passed.add(name)
